@@ -455,7 +455,7 @@ class Bin(Factory, Container):
                 value.fill(None, float(hi))
 
         else:
-            inrange = q < self.high
+            inrange = np.logical_and(q >= self.low, q < self.high)
             q = np.array(q, dtype=np.float64)
             np.subtract(q, self.low, q)
             np.multiply(q, self.num, q)
@@ -464,6 +464,9 @@ class Bin(Factory, Container):
             q = np.array(q, dtype=int)
             # floating point rounding can yield num for x just below high; such x belongs to the last bin
             q[np.logical_and(inrange, q >= self.num)] = self.num - 1
+            # under/overflow values belong to no regular bin, whatever index rounding produced for them
+            # (e.g. the float just below low == 0.0 divides to -0.0, hence index 0)
+            q[np.logical_not(inrange)] = -1
 
             for index, value in enumerate(self.values):
                 np.not_equal(q, index, selection)
